@@ -1,4 +1,4 @@
-import Vgw.Lemmas.CrashAtomic
+import Vgw.Lemmas.CrashEffect
 /-
   Property C11 — a gateway crash never leaves a half-written or vanished object.
 
@@ -13,6 +13,7 @@ import Vgw.Lemmas.CrashAtomic
     * `leftovers_invisible`                 names below `.sgwtmp` are never listed; no crash makes an unrelated key
                                             appear in or disappear from the listing
     * `plan_writes_owned`                   where a request can write at all
+    * `put_effect`                          (xattr store) a completed PutObject takes full effect from any state, leftovers or not
   proved for the class `Safe` (the requests for which the UNCHANGED backend is atomic)
     * `crash_atomic_partial`, `listing_atomic_partial`
   full statements that the unchanged backend violates (negations in Open/C11.lean, replayed by the harness)
@@ -158,6 +159,108 @@ theorem leftovers_invisible (cfg : Cfg) (rq : Req) (fs : FS) (n : Nat) :
   unfold listed
   simp [hk]
 
+/-- C11 "leftovers never prevent later operations on that key" (model part; the retry itself is exercised on the real
+    gateway at every crash point): after a kill at any step of a safe request EITHER the request had already taken
+    full effect OR the crashed state is again in the safe class — whatever the kill left behind (temp files, parent
+    directories, archive copies), re-issuing the request is again crash-atomic (`crash_atomic_partial` applies to it). -/
+theorem leftovers_harmless (cfg : Cfg) (rq : Req) (fs : FS) (n : Nat) (h : SafeB cfg rq fs = true)
+    (hsrc : rq.op = .copy → Unrelated rq.key rq.src) :
+    view cfg (crashAt n (plan cfg rq fs) fs) rq.key = view cfg (run (plan cfg rq fs) fs) rq.key ∨
+    SafeB cfg rq (crashAt n (plan cfg rq fs) fs) = true := by
+  unfold crashAt
+  rcases atomic_of_countP (reads cfg rq.key) (plan cfg rq fs) fs (safe_one_commit cfg rq fs h) n with h1 | h1
+  · right
+    have hget : (crash (run ((plan cfg rq fs).take n) fs)).get (objPath cfg rq.key) = fs.get (objPath cfg rq.key) := by
+      rw [← FS.get_restrict (reads cfg rq.key) _ (reads_obj cfg rq.key), FS.restrict_crash, h1,
+        FS.get_restrict (reads cfg rq.key) fs (reads_obj cfg rq.key)]
+    have hsrcAttr : rq.op = .copy →
+        readAttr cfg (crash (run ((plan cfg rq fs).take n) fs)) (objPath cfg rq.src) "X-Amz-Tagging"
+          = readAttr cfg fs (objPath cfg rq.src) "X-Amz-Tagging" := by
+      intro hc
+      have hs : ∀ s ∈ (plan cfg rq fs).take n, s.silent (reads cfg rq.src) = true :=
+        fun s hs => silent_of_owned (plan_writes_owned cfg rq fs) (hsrc hc) s (List.mem_of_mem_take hs)
+      have hr : (crash (run ((plan cfg rq fs).take n) fs)).restrict (reads cfg rq.src) = fs.restrict (reads cfg rq.src) := by
+        rw [FS.restrict_crash, run_restrict _ _ fs hs]
+      have hside : ∀ q : Path, (sideOf (objPath cfg rq.src)).isPrefixOf q = true → reads cfg rq.src q = true := by
+        intro q hq; simp [reads, hq]
+      rw [← readAttr_restrict (reads cfg rq.src) cfg _ (objPath cfg rq.src) (reads_obj cfg rq.src) hside, hr,
+        readAttr_restrict (reads cfg rq.src) cfg fs (objPath cfg rq.src) (reads_obj cfg rq.src) hside]
+    unfold SafeB at h ⊢
+    rw [hget]
+    cases hop : rq.op <;> rw [hop] at h <;> simp only [] at h ⊢
+    · exact h
+    · rw [hsrcAttr hop]; exact h
+    · exact h
+    · exact h
+    · exact h
+  · left
+    rw [← view_restrict, FS.restrict_crash, h1, view_restrict]
+
+/-- What "the complete new state" is, and C11's "leftovers never prevent later operations on that key" for PutObject
+    (xattr store): from ANY state in which the bucket exists and the key's name is not a directory — whatever earlier
+    crashes left behind in `.sgwtmp`, in the versioning directory, as parent directories or as a half-replaced
+    object — a completed PutObject leaves the key reading the request's body with the request's ETag (and tags, when
+    supplied): the (re-)issued request takes full effect. (`tmp` is the name os.CreateTemp picks: fresh.) -/
+theorem put_effect (cfg : Cfg) (hs : cfg.sidecar = false) (hv : cfg.verDir = false) (har : cfg.atomicReplace = false)
+    (rq : Req) (hk : KeyOK rq.key) (fs : FS)
+    (hb : fs.isDir (bucketPath cfg) = true) (hnd : fs.isDir (objPath cfg rq.key) = false)
+    (hfresh : fs.get (tmpDir cfg ++ [rq.tmp]) = none) :
+    ∃ v, view cfg (run (planPut cfg rq fs) fs) rq.key = some v ∧ v.data = rq.data ∧ v.etag = some "new" ∧
+      (rq.tags = true → v.tags = some "new") := by
+  have hget := get_planPut cfg hs har rq hk fs hb hnd hfresh
+  have hattr : ∀ a, readAttr cfg (run (planPut cfg rq fs) fs) (objPath cfg rq.key) a = aget (foldAttrs [] (putAttrs cfg rq)) a := by
+    intro a; unfold readAttr; simp [hs, hget, Node.attrs]
+  have hetag : aget (foldAttrs [] (putAttrs cfg rq)) "etag" = some "new" := by
+    have hsplit : putAttrs cfg rq = (rq.metaKeys.map (fun k => ("X-Amz-Meta." ++ k, "new")) ++ [("checksums", "new")]) ++ ("etag", "new") ::
+        ((if rq.ctype then [("content-type", "new")] else []) ++
+         (if cfg.verDir && cfg.vstatus == .enabled then [("version-id", rq.newVid)] else []) ++
+         (putSpecOf cfg rq).tailAttrs ++ (putSpecOf cfg rq).postAttrs) := by
+      simp [putAttrs, putSpecOf, List.append_assoc]
+    rw [hsplit]
+    apply aget_foldAttrs_last
+    intro kv hkv
+    simp only [putSpecOf, List.mem_append] at hkv
+    rcases hkv with ((hkv | hkv) | hkv) | hkv
+    · split at hkv
+      · simp only [List.mem_singleton] at hkv; subst hkv; decide
+      · cases hkv
+    · split at hkv
+      · simp only [List.mem_singleton] at hkv; subst hkv
+        show "version-id" ≠ "etag"; decide
+      · cases hkv
+    · split at hkv
+      · split at hkv
+        · simp only [List.mem_singleton] at hkv; subst hkv; decide
+        · cases hkv
+      · cases hkv
+    · split at hkv
+      · cases hkv
+      · split at hkv
+        · simp only [List.mem_singleton] at hkv; subst hkv; decide
+        · cases hkv
+  have hview : view cfg (run (planPut cfg rq fs) fs) rq.key = some
+      { data := rq.data
+        etag := (readAttr cfg (run (planPut cfg rq fs) fs) (objPath cfg rq.key) "etag").filter (· != "")
+        ctype := (readAttr cfg (run (planPut cfg rq fs) fs) (objPath cfg rq.key) "content-type").filter (· != "")
+        umeta := (listAttrs cfg (run (planPut cfg rq fs) fs) (objPath cfg rq.key)).filter isMetaAttr |>.filterMap
+          (fun a => (readAttr cfg (run (planPut cfg rq fs) fs) (objPath cfg rq.key) a).map (fun v => (a, v)))
+        vid := none
+        tags := readAttr cfg (run (planPut cfg rq fs) fs) (objPath cfg rq.key) "X-Amz-Tagging" } := by
+    unfold view
+    simp only [hget, hv, Bool.false_and, Bool.false_eq_true, ↓reduceIte]
+  refine ⟨_, hview, rfl, ?_, ?_⟩
+  · show (readAttr cfg _ _ "etag").filter _ = _
+    rw [hattr, hetag]; rfl
+  · intro ht
+    show readAttr cfg _ _ "X-Amz-Tagging" = _
+    rw [hattr]
+    have hsplit : putAttrs cfg rq = ((putSpecOf cfg rq).attrs ++
+        (if cfg.verDir && cfg.vstatus == .enabled then [("version-id", rq.newVid)] else [])) ++ ("X-Amz-Tagging", "new") :: [] := by
+      simp only [putAttrs, putSpecOf, ht, ↓reduceIte]
+      cases cfg.tagsFirst <;> simp
+    rw [hsplit]
+    exact aget_foldAttrs_last _ _ _ _ _ (by intro kv hkv; cases hkv)
+
 /-! ### further full statements the unchanged backend violates (negations in Open/C11.lean; no `_partial` is
     proved for them: where they hold is established by the crash enumeration on the real code only) -/
 
@@ -198,6 +301,14 @@ example : Unrelated ["k"] ["zz"] := by
   refine ⟨?_, ?_, by decide⟩ <;> (intro h; exact absurd (List.cons_prefix_cons.mp h).1 (by decide))
 -- safe deletes, completes and part uploads exist as well
 example : SafeB {} { op := .delete, key := ["zz"] } fs0 = true := by decide
+-- put_effect: a state full of leftovers (a stale named temp file, a stray parent directory, an existing object)
+-- meets its hypotheses
+def fsLeft : FS := { ents := [(["R", "b"], .dir []), (["R", "b", ".sgwtmp"], .dir []),
+                              (["R", "b", ".sgwtmp", "TMPold"], .file "junk" [("etag", "junk")]), (["R", "b", "d"], .dir []),
+                              (["R", "b", "d", "k"], .file "old" [("etag", "old")])] }
+example : fsLeft.isDir (bucketPath {}) = true ∧ fsLeft.isDir (objPath {} ["d", "k"]) = false ∧
+    fsLeft.get (tmpDir {} ++ ["TMP"]) = none ∧ KeyOK ["d", "k"] := by
+  refine ⟨by decide, by decide, by decide, by decide, by decide⟩
 -- the repaired variant: an overwrite is in the safe class, its plan renames over the object (no unlink)
 example : SafeFixedB { atomicReplace := true } { op := .put, key := ["zz"] } fs0 = true := by decide
 example : (plan { atomicReplace := true } { op := .put, key := ["zz"] } fs0).length = 7 := by decide
